@@ -509,3 +509,46 @@ var phu2 = func(t *CT, a int) int {
 	}
 	return x
 }
+
+//go:noinline
+func ufoo(a int) int { return a*9 + 400 }
+
+var phf0 = func(a int) int {
+	x := a
+	for i := 0; i < len(sink); i++ {
+		x = x*31 + i
+		sink[i&7] += x
+		if x&1 == 0 {
+			x ^= sink[(i+1)&7]
+		} else {
+			x += sink[(i+3)&7] * 7
+		}
+		sink[(i+5)&7] -= x >> 3
+		if x%7 == 3 {
+			x = x*x + sink[(i+2)&7]
+		}
+		sink[(i+6)&7] ^= x << 2
+		x += sink[(i+4)&7]*13 - sink[(i+7)&7]*17
+	}
+	return x
+}
+
+var phf1 = func(a int) int {
+	x := a
+	for i := 0; i < len(sink); i++ {
+		x = x*31 + i
+		sink[i&7] += x
+		if x&1 == 0 {
+			x ^= sink[(i+1)&7]
+		} else {
+			x += sink[(i+3)&7] * 7
+		}
+		sink[(i+5)&7] -= x >> 3
+		if x%7 == 3 {
+			x = x*x + sink[(i+2)&7]
+		}
+		sink[(i+6)&7] ^= x << 2
+		x += sink[(i+4)&7]*13 - sink[(i+7)&7]*17
+	}
+	return x
+}
